@@ -505,9 +505,19 @@ func ExtractReceiverType(expr ast.Expr) string {
 		if ident, ok := t.X.(*ast.Ident); ok {
 			return ident.Name
 		}
+		// Pointer to a generic or parenthesised receiver: *Box[T], *(MyStruct)
+		return ExtractReceiverType(t.X)
 	case *ast.Ident:
 		// Value receiver: MyStruct
 		return t.Name
+	case *ast.IndexExpr:
+		// Generic receiver with one type parameter: Box[T]
+		return ExtractReceiverType(t.X)
+	case *ast.IndexListExpr:
+		// Generic receiver with several type parameters: Pair[K, V]
+		return ExtractReceiverType(t.X)
+	case *ast.ParenExpr:
+		return ExtractReceiverType(t.X)
 	}
 	return ""
 }
